@@ -38,11 +38,24 @@ class ScriptProc(Process):
             row = self._rows[h % len(self._rows)]
             if not self._stateless:
                 self._idx += 1
+            # ONE message object per handler call, rewritten in place before every send (a handler that stamps a
+            # reused message): every send must carry the content the object has at THAT call
+            out = Message("", {})
             for a in row:
                 if a[0] == "S":
-                    ctx.send(Message(a[2], json.loads(a[3])), "p%03d" % a[1])
+                    out._type = a[2]
+                    for k in list(out._data.keys()):
+                        out.remove(k)
+                    for k, v in json.loads(a[3]).items():
+                        out[k] = v
+                    ctx.send(out, "p%03d" % a[1])
                 elif a[0] == "L":
-                    ctx.send_local(Message(a[1], json.loads(a[2])))
+                    out._type = a[1]
+                    for k in list(out._data.keys()):
+                        out.remove(k)
+                    for k, v in json.loads(a[2]).items():
+                        out[k] = v
+                    ctx.send_local(out)
                 elif a[0] == "T":
                     if a[3]:
                         ctx.set_timer_once("t%03d" % a[1], a[2])
